@@ -14,6 +14,7 @@ import (
 
 var repoRoot = "/repo"
 var verifRoot = "/verif"
+var outRoot = verifRoot
 
 func newExec(l *Loaded) (*Exec, error) {
 	x := &Exec{w: NewWorld(), prog: l.prog, fset: l.fset, trivial: map[string]int{}, typeTags: map[string]int64{},
